@@ -28,11 +28,17 @@ package tracer
 //	    counts, errors, buffer sizes handed down, headers, status, trailers,
 //	    panics) is identical to the run without tracing.
 //
+// Two cheap stages run before this enumeration (c14_history_test.go): stage H,
+// histories (pairs of cases traced back to back in one process: what the trace
+// says about a body must not depend on what was traced before), and stage S,
+// every spelling of every supported encoding name in every header carrying it.
+//
 // Violations are reported through the report only.
 
 import (
 	"bytes"
 	"compress/gzip"
+	"compress/zlib"
 	"encoding/binary"
 	"encoding/hex"
 	"encoding/json"
@@ -48,6 +54,8 @@ import (
 	"time"
 
 	"connectrpc.com/conformance/internal/verif/rep"
+	"github.com/andybalholm/brotli"
+	"github.com/golang/snappy"
 	"github.com/klauspost/compress/zstd"
 )
 
@@ -624,7 +632,7 @@ func c14Proto(h c14Hdr) string {
 
 var (
 	c14ZstdDec = func() *zstd.Decoder {
-		d, err := zstd.NewReader(nil, zstd.WithDecoderConcurrency(1))
+		d, err := zstd.NewReader(nil, zstd.WithDecoderConcurrency(1), zstd.WithDecoderMaxMemory(1<<24), zstd.WithDecoderMaxWindow(1<<24))
 		if err != nil {
 			panic(err)
 		}
@@ -639,40 +647,77 @@ var (
 	}()
 )
 
+// c14SupportedEncodings are the content codings the conformance suite negotiates
+// (internal/compression); "identity" and an absent header mean no compression.
+var c14SupportedEncodings = []string{"gzip", "zstd", "br", "deflate", "snappy"}
+
+func c14KnownEncoding(enc string) bool {
+	for _, e := range c14SupportedEncodings {
+		if e == enc {
+			return true
+		}
+	}
+	return false
+}
+
+// c14Decompress is the reference decoder (the libraries themselves, not the
+// wrappers of internal/compression). Any error, also one reported after output
+// was produced, means "undecodable".
 func c14Decompress(enc string, payload []byte) (string, bool) {
+	var rd io.Reader
 	switch enc {
 	case "gzip":
 		zr, err := gzip.NewReader(bytes.NewReader(payload))
 		if err != nil {
 			return "", false
 		}
-		out, err := io.ReadAll(zr)
-		if err != nil {
-			return "", false
-		}
-		return string(out), true
+		rd = zr
 	case "zstd":
 		out, err := c14ZstdDec.DecodeAll(payload, nil)
 		if err != nil {
 			return "", false
 		}
 		return string(out), true
+	case "br":
+		rd = brotli.NewReader(bytes.NewReader(payload))
+	case "deflate":
+		zr, err := zlib.NewReader(bytes.NewReader(payload))
+		if err != nil {
+			return "", false
+		}
+		rd = zr
+	case "snappy":
+		rd = snappy.NewReader(bytes.NewReader(payload))
+	default:
+		return "", false
 	}
-	return "", false
+	out, err := io.ReadAll(rd)
+	if err != nil {
+		return "", false
+	}
+	return string(out), true
 }
 
 func c14Compress(enc string, text []byte) []byte {
+	var buf bytes.Buffer
+	var zw io.WriteCloser
 	switch enc {
 	case "gzip":
-		var buf bytes.Buffer
-		zw := gzip.NewWriter(&buf)
-		_, _ = zw.Write(text)
-		_ = zw.Close()
-		return buf.Bytes()
+		zw = gzip.NewWriter(&buf)
 	case "zstd":
 		return c14ZstdEnc.EncodeAll(text, nil)
+	case "br":
+		zw = brotli.NewWriter(&buf)
+	case "deflate":
+		zw = zlib.NewWriter(&buf)
+	case "snappy":
+		zw = snappy.NewBufferedWriter(&buf)
+	default:
+		return text
 	}
-	return text
+	_, _ = zw.Write(text)
+	_ = zw.Close()
+	return buf.Bytes()
 }
 
 func c14EndStreamExpectation(response bool, proto string, h c14Hdr, flags byte, payload []byte) (byte, string) {
@@ -689,11 +734,12 @@ func c14EndStreamExpectation(response bool, proto string, h c14Hdr, flags byte, 
 	if flags&0x01 == 0 {
 		return 'm', string(payload) // not compressed: content is the payload as is
 	}
-	switch strings.ToLower(h.Enc) {
-	case "", "identity":
+	// content-coding names are case-insensitive (RFC 9110 section 8.4.1)
+	switch enc := strings.ToLower(h.Enc); {
+	case enc == "" || enc == "identity":
 		return 'm', string(payload) // identity "decompression"
-	case "gzip", "zstd":
-		text, ok := c14Decompress(strings.ToLower(h.Enc), payload)
+	case c14KnownEncoding(enc):
+		text, ok := c14Decompress(enc, payload)
 		if !ok || text == "" {
 			return 'o', ""
 		}
@@ -1285,12 +1331,23 @@ func TestVerifC14(t *testing.T) {
 	r.Rule = "case = (side in {client-response, server-request, server-response, client-request}, Content-Type and encoding headers, " +
 		"delivered byte string D = a truncation of an enveloped stream, composition of D into Read/Write calls, ending in " +
 		"{EOF, EOF with data, error, error with data, Close, failing Close | return, failing write, short write, handler panic}); " +
-		"all cases are distinct by construction; non-trivial = at least one byte delivered"
+		"all cases are distinct by construction; non-trivial = at least one byte delivered. " +
+		"Stage H (first): history = ordered pair of such cases traced back to back in one process (first: damaged / cut / failing or valid body, " +
+		"second: valid body), judged like single cases plus: the second body's events equal those of the same body traced in a fresh process state. " +
+		"Stage S (second): encoding names in every spelling (lower, UPPER, Title, mIXED) for every supported encoding and every header that carries them"
 	if in := rep.ReplayInput(); in != nil {
+		if c14HistoryReplay(t, r, in) {
+			return
+		}
 		c14Replay(t, r, in)
 		return
 	}
 	deadline := rep.Deadline()
+	// The two cheap stages come first so that a budget hit in the heavy enumeration below cannot starve them.
+	if !c14HistoryStage(r, deadline) || !c14ShapeStage(r, deadline) {
+		r.NotExhaustive("budget reached before all units were enumerated")
+		return
+	}
 	units := c14Units(rep.Thorough())
 	if r.Shard == 0 {
 		r.Count("units-total", int64(len(units)))
